@@ -84,6 +84,15 @@ CHECKS = {
               "string range are the known finding F10b (over-approximation stays sound there)."),
         design_ref='DESIGN.md section 7 / C13',
         technique='Coq proof (any-edge traversal soundness/exactness) + differential correspondence + satisfiability search'),
+    'C12': dict(
+        text=("Machine-checked proof (Coq) over the cut form: complexify(m,R) evaluates as m AND python_full_version in R for every valuation and "
+              "is that conjunction as the identical diagram (canonicity, for release-only cuts); simplify(m,R) agrees with m wherever python_full_version "
+              "lies in R; both preserve well-formedness (ordered, reduced, partitioning) for every window incl. exclusive/degenerate bounds; the "
+              "composition laws hold pointwise; empty and inverted ranges give FALSE; the functions are total. `simplify_local` (markers agreeing on R "
+              "simplify to the same marker) and the composition laws as diagram equalities are decided by the differential/oracle part, not by a theorem. "
+              "Tie: extracted m_simplify_pv / m_complexify_pv vs the crate on its own dumps for random markers x bound pairs (incl. pre/post/dev bounds)."),
+        design_ref='DESIGN.md section 7 / C12',
+        technique='Coq proof (window restriction/clipping lemmas on partitions) + step-wise differential correspondence + law oracle'),
 }
 
 PENDING = {}
